@@ -79,3 +79,30 @@ SB_OP(bld)
     if (inited)
         sb_trajectory_builder_destroy(&b);
 }
+
+// rthconv action time dur tx ty alt pre post neck neckdur sx sy sz syaw  (all float bit patterns but action)
+SB_OP(rthconv)
+{
+    sb_rth_plan_entry_t e;
+    memset(&e, 0, sizeof(e));
+    e.action = (sb_rth_action_t)atoi(t[2].c_str());
+    e.time_sec = tokf(t[3]);
+    e.duration_sec = tokf(t[4]);
+    e.target.x = tokf(t[5]);
+    e.target.y = tokf(t[6]);
+    e.target_altitude = tokf(t[7]);
+    e.pre_delay_sec = tokf(t[8]);
+    e.post_delay_sec = tokf(t[9]);
+    e.pre_neck_mm = tokf(t[10]);
+    e.pre_neck_duration_sec = tokf(t[11]);
+    sb_vector3_with_yaw_t start = { tokf(t[12]), tokf(t[13]), tokf(t[14]), tokf(t[15]) };
+    sb_trajectory_t tr;
+    memset(&tr, 0, sizeof(tr));
+    sb_error_t rc = sb_trajectory_init_from_rth_plan_entry(&tr, &e, start);
+    add(out, (long long)rc);
+    if (rc == SB_SUCCESS) {
+        add(out, hex(SB_BUFFER(tr.buffer), sb_buffer_size(&tr.buffer)));
+        addu(out, sb_trajectory_get_total_duration_msec(&tr));
+        sb_trajectory_destroy(&tr);
+    }
+}
